@@ -169,17 +169,26 @@ func runWorker(job *worldb.Job, gomaxprocs int, timeout time.Duration) *workerRe
 func runIndexes(prop, tier string, root uint64, indexes []int, nw int, timeout time.Duration) (all []*worldb.Verdict, crashes []*worldb.Verdict, trouble string) {
 	parts := make([][]int, nw)
 	for i, idx := range indexes {
+		if prop == "C32" && idx < 96 {
+			// a process of its own: races on state that is initialised on
+			// first use show only the first time in a process
+			parts = append(parts, []int{idx})
+			continue
+		}
 		parts[i%nw] = append(parts[i%nw], idx)
 	}
 	var mu sync.Mutex
 	var wg sync.WaitGroup
-	for w := 0; w < nw; w++ {
+	sem := make(chan struct{}, nw)
+	for w := 0; w < len(parts); w++ {
 		if len(parts[w]) == 0 {
 			continue
 		}
 		wg.Add(1)
 		go func(part []int) {
 			defer wg.Done()
+			sem <- struct{}{}
+			defer func() { <-sem }()
 			for len(part) > 0 {
 				res := runWorker(&worldb.Job{Property: prop, Tier: tier, Root: root, Indexes: part}, runtime.NumCPU(), timeout)
 				mu.Lock()
